@@ -7,11 +7,12 @@ from .engine import SV, State, Acc, Undecided, POISON, CONTAINER_CLASSES
 from .exprs import PURE_STR_METHODS
 
 DROPPED_CALLS = {
-    "print", "warnings.warn", "traceback.print_exc", "sys.stdout.flush",
+    "print", "ExceptionUtil.set_traceback", "warnings.warn", "traceback.print_exc", "sys.stdout.flush",
     "sys.stderr.flush", "logging.warning",
 }
 DROPPED_METHOD_NAMES = {"warning", "error", "info", "debug", "exception", "flush"}
 FRESH_MODULE_CALLS = {
+    "ExceptionUtil.describe": "str", "ExceptionUtil.get_traceback": "any", "ExceptionUtil.has_traceback": "any",
     # module function -> (result kind)
     "time.time": "float", "traceback.format_exc": "str", "traceback.format_tb": "any",
     "traceback.extract_stack": "any", "sys.exc_info": "any", "os.getcwd": "str",
@@ -48,7 +49,13 @@ class CallMixin(object):
                     st, recv = self.eval(fnode.value, st, acc)
                     if recv.kind == "super":
                         recv = recv.py[1]
+                callee = None
+                if cc.pos_params and cc.pos_params[0] == "callee":
+                    st, callee = self.eval(fnode, st, acc)
+                    callee = self.box(st, callee)
                 st, args, kwargs = self.eval_args(node, st, acc)
+                if callee is not None:
+                    args = [callee] + args
                 return self.apply_contract(st, acc, cc, None, recv, args, kwargs, node)
         st, f = self.eval(fnode, st, acc)
         st, args, kwargs = self.eval_args(node, st, acc)
@@ -82,6 +89,12 @@ class CallMixin(object):
             return self.module_call(st, acc, f.py, args, kwargs, node)
         if f.kind == "classof":
             raise Undecided("call of x.__class__")
+        if f.kind == "ghostarray":
+            arr = f.py
+            a0 = args[0]
+            if arr.sort().domain() == self.u.Int:
+                return st, SV(arr[self.as_int(a0) if a0.kind == "int" else self.u.i(a0.z)])
+            return st, SV(arr[self.box(st, a0).z])
         if f.kind != "callable":
             if f.z is not None and f.cls is not None and f.cls not in CONTAINER_CLASSES:
                 owner, fn = self.src.lookup_method(f.cls, "__call__")
@@ -497,6 +510,9 @@ class CallMixin(object):
                 and dotted.split(".")[0] in ("logging", "logger", "warnings", "sys"):
             self.assumptions_used.add("A-noeffect")
             return st, self.mk_none()
+        if dotted == "sys.exc_info":
+            self.assumptions_used.add("A-noeffect")
+            return st, SV(None, "pytuple", py=tuple(SV(u.fresh_val("excinfo")) for _ in range(3)))
         if dotted in FRESH_MODULE_CALLS:
             self.assumptions_used.add("A-noeffect")
             k = FRESH_MODULE_CALLS[dotted]
@@ -533,6 +549,13 @@ class CallMixin(object):
     # ------------------------------------------------------------------
     # contract application
     def apply_contract(self, st, acc, c, fn, selfv, args, kwargs, node):
+        saved_cc = self.cur_contract
+        try:
+            return self._apply_contract(st, acc, c, fn, selfv, args, kwargs, node, saved_cc)
+        finally:
+            self.cur_contract = saved_cc
+
+    def _apply_contract(self, st, acc, c, fn, selfv, args, kwargs, node, caller_cc):
         u = self.u
         if fn is None and not c.fid.startswith(("abs:", "lib:", "new:", "user:")):
             fn = self.src.function(c.fid)
@@ -542,6 +565,8 @@ class CallMixin(object):
                 env[name] = self.typed(env[name].z, t)
         if c.trusted:
             self.trusted_used.add(c.fid)
+        # the callee's clauses are evaluated with the callee contract's globals/macros
+        self.cur_contract = c
         # preconditions -> obligation of the caller
         if not self.in_spec:
             for label, text in c.requires:
@@ -842,6 +867,12 @@ class CallMixin(object):
         attr = name.cases[0][1]
         if default is None:
             return self.get_attr(st, obj, attr, acc, node)
+        if obj.kind is None and obj.z is not None and obj.cls is not None:
+            if not self.in_spec:
+                self.oblige(st, "deref", self.auto_label(node, "deref"), self.u.is_R(obj.z),
+                            note="getattr() receiver is an object (not None)")
+            st.assume(self.u.is_R(obj.z))
+            obj = SV(obj.z, "ref", cls=obj.cls, elem=obj.elem)
         # with default: AttributeError -> default
         if obj.kind == "ref" and obj.cls is not None:
             cls = obj.cls
